@@ -41,6 +41,7 @@ import (
 	"github.com/dadrus/heimdall/internal/handler/requestcontext"
 	"github.com/dadrus/heimdall/internal/heimdall"
 	"github.com/dadrus/heimdall/internal/keyholder"
+	"github.com/dadrus/heimdall/internal/keystore"
 	"github.com/dadrus/heimdall/internal/otel/metrics/certificate"
 	"github.com/dadrus/heimdall/internal/rules/mechanisms/finalizers"
 	"github.com/dadrus/heimdall/internal/rules/mechanisms/subject"
@@ -234,6 +235,33 @@ func (e *c16Env) ca(n int) (*c16CA, error) {
 	e.remember(der, 900+n)
 
 	return ca, nil
+}
+
+// algOf observes what the key store says about one key of the case: whether it supports it for JOSE, and which
+// signature algorithm it names for it (a panic is reported as such)
+func (e *c16Env) algOf(pid int) (res any) {
+	if pid < 0 || pid >= len(e.keys) {
+		return map[string]any{"error": "no such key"}
+	}
+
+	ks, err := keystore.NewKeyStoreFromKey(e.keys[pid])
+	if err != nil || len(ks.Entries()) != 1 {
+		return map[string]any{"error": "no key store from key"}
+	}
+
+	entry := ks.Entries()[0]
+	out := map[string]any{"supported": entry.CheckJOSESupport() == nil}
+
+	defer func() {
+		if r := recover(); r != nil {
+			out["alg"] = "panic"
+			res = out
+		}
+	}()
+
+	out["alg"] = string(entry.JOSEAlgorithm())
+
+	return out
 }
 
 // pemFile renders a store specification: {"raw": "empty"|"garbage"|"unsupported"} or {"blocks":[...]}
@@ -1179,6 +1207,8 @@ func c16RunSigner(c map[string]any) (any, error) {
 			results = append(results, res)
 		case "jwks":
 			results = append(results, w.canonJWKS(w.fetchJWKS()))
+		case "alg":
+			results = append(results, w.env.algOf(getInt(op, "k")))
 		case "reload":
 			r, rerr := w.reload(op, false, nil)
 			if rerr != nil {
